@@ -558,6 +558,12 @@ bool ScriptEmitter::BuiltinReadVariable(sourceLocation_t sourceLoc, uint8_t type
         return true;
     }
 
+    if (!c)
+    {
+        // the game object has no class of its own, hence no built-in variable
+        return false;
+    }
+
     const EventDef* const def = c->GetDef(eventnum);
 
     if (def)
@@ -605,6 +611,12 @@ bool ScriptEmitter::BuiltinWriteVariable(sourceLocation_t sourceLoc, uint8_t typ
 
     default:
         return true;
+    }
+
+    if (!c)
+    {
+        // the game object has no class of its own, hence no built-in variable
+        return false;
     }
 
     const EventDef* const def = c->GetDef(eventnum);
